@@ -80,8 +80,20 @@ def rule_moments(repo: Repo) -> List[Ob]:
         nz = _field_normalizer(m, defs)
         calls = [c for c in walk_no_nested(m.node) if isinstance(c, ast.Call) and call_name(c) == ctor]
         key = f"{cls.relpath}::{cname}.get_moment"
+        mdefs, mnz = defs, nz
+        helper_of_rv = None
+        if not calls:
+            # the random variable may be built by a helper of the class
+            for hf, _, hcall in helper_calls(repo, m, depth=1):
+                hc = [c for c in walk_no_nested(hf.node) if isinstance(c, ast.Call) and call_name(c) == ctor]
+                if hc:
+                    calls = hc
+                    helper_of_rv = (hf, hcall)
+                    defs = Defs(hf.node, hf.params()[0] if hf.params() else None)
+                    nz = _field_normalizer(hf, defs)
+                    break
         if len(calls) != 1:
-            obs.append(Ob("F-moments", key + "::ctor", cls.relpath, m.node.lineno, m.qualname, False, f"expected one {ctor}(...) random variable"))
+            obs.append(inconclusive("F-moments", key + "::parameters", cls.relpath, m.node.lineno, m.qualname, f"construction of the {ctor}(...) random variable not found in get_moment or its helpers"))
             continue
         c = calls[0]
         imp = cls.module.imports.get(ctor)
@@ -120,10 +132,23 @@ def rule_moments(repo: Repo) -> List[Ob]:
             a = ev[0].args[0]
             okp = isinstance(a, ast.BinOp) and isinstance(a.op, ast.Pow) and isinstance(a.right, ast.Name) and a.right.id == k
             if scale != "1":
+                def scale_rf(e):
+                    """the scale factor as a rational function of the fields; follows `a, b = self.helper()` into the helper's returned tuple"""
+                    if isinstance(e, ast.Name) and helper_of_rv is not None:
+                        for v in mdefs.defs.get(e.id, []):
+                            if type(v).__name__ == "_Elem" and v.expr is helper_of_rv[1]:
+                                rets = return_exprs(helper_of_rv[0].node)
+                                if len(rets) == 1 and isinstance(rets[0], ast.Tuple) and v.index < len(rets[0].elts):
+                                    return nz(rets[0].elts[v.index])
+                    return mnz(e)
                 p = parent(ev[0])
-                okp = okp and isinstance(p, ast.BinOp) and isinstance(p.op, ast.Mult) and any(
-                    isinstance(s, ast.BinOp) and isinstance(s.op, ast.Pow) and nz(s.left).equiv(_rf_text(scale)) and isinstance(s.right, ast.Name) and s.right.id == k
-                    for s in (p.left, p.right))
+                try:
+                    okp = okp and isinstance(p, ast.BinOp) and isinstance(p.op, ast.Mult) and any(
+                        isinstance(s, ast.BinOp) and isinstance(s.op, ast.Pow) and scale_rf(s.left).equiv(_rf_text(scale)) and isinstance(s.right, ast.Name) and s.right.id == k
+                        for s in (p.left, p.right))
+                except AnalysisError:
+                    obs.append(inconclusive("F-moments", key + "::order", cls.relpath, ev[0].lineno, m.qualname, "scale factor of the moment not traced to a field"))
+                    continue
             else:
                 p = parent(ev[0])
                 okp = okp and not (isinstance(p, ast.BinOp))
